@@ -32,17 +32,17 @@ def box(name):
         if len(spec) > 1:
             mods['b'] = ('', PR[spec[1]])
     if base == 'x1':
-        return dict(fam=B(2, 'x', 2, 2, render='tok', mods=mods), alpha=('X',))
+        return dict(no_inputs=True, fam=B(2, 'x', 2, 2, render='tok', mods=mods), alpha=('X',))
     if base == 'x2':
-        return dict(fam=B(2, 'xy', 2, 2, render='tok', mods=mods), alpha=('X', 'Y'))
+        return dict(no_inputs=True, fam=B(2, 'xy', 2, 2, render='tok', mods=mods), alpha=('X', 'Y'))
     if base == 'x2l':
-        return dict(fam=B(2, 'xy', (1, 2), (3, 2), render='tok', mods=mods), alpha=('X', 'Y'))
+        return dict(no_inputs=True, fam=B(2, 'xy', (1, 2), (3, 2), render='tok', mods=mods), alpha=('X', 'Y'))
     if base == 'k3':
-        return dict(fam=B(3, 'x', (2, 2, 1), 2, render='tok', mods=mods), alpha=('X',))
+        return dict(no_inputs=True, fam=B(3, 'x', (2, 2, 1), 2, render='tok', mods=mods), alpha=('X',))
     if base == 'k3y':
-        return dict(fam=B(3, 'xy', (2, 1, 1), 2, render='tok', mods=mods), alpha=('X', 'Y'))
+        return dict(no_inputs=True, fam=B(3, 'xy', (2, 1, 1), 2, render='tok', mods=mods), alpha=('X', 'Y'))
     if base == 'k3p':       # three prioritised rules competing: b has its own priority
-        return dict(fam=B(3, 'x', (3, 1, 1), (1, 1, 1), render='tok', mods=mods), alpha=('X',))
+        return dict(no_inputs=True, fam=B(3, 'x', (3, 1, 1), (1, 1, 1), render='tok', mods=mods), alpha=('X',))
     raise KeyError(name)
 
 
